@@ -2261,6 +2261,11 @@ func (tc *typechecker) checkDefault(expr *ast.Default, show bool) typeInfoPair {
 					}
 				}
 			}
+			// A global variable is checked as any other identifier, so that
+			// it is recorded as upvar of the enclosing functions.
+			if tis[0] != nil && tis[0].Global() && tis[0].Addressable() {
+				tis[0] = tc.checkIdentifier(n, true)
+			}
 		}
 
 	case *ast.Call:
